@@ -27,6 +27,12 @@ for f in demo_files:
     cands = re.findall(r"([\w./\-]*/)" + re.escape(f), demo_txt)
     cands = [c for c in cands if not c.startswith("/")]
     placement[f] = (cands[-1] if cands else "") + f
+try:
+    mp = json.load(open(os.path.join(src, "meta.json"))).get("demo_path", "")
+    if mp and len(demo_files) == 1 and "/" in mp and not mp.startswith("/"):
+        placement[demo_files[0]] = mp
+except Exception:
+    pass
 cmds = re.findall(r"(go (?:test|run) [^\n;]*)", demo_txt)
 demo_cmd = cmds[-1].strip()
 demo_rel = ", ".join(placement.values())
